@@ -1,7 +1,7 @@
 // verif-extract: reads /repo's current sources and emits Gallina.
 // Standard library only. Sub-commands:
 //   consts <repo> <out.v>   every integer constant + initialVector
-// Other sub-commands (skeletons, access summaries) live in sibling files.
+// Other translators (skeletons, access summaries) are separate programs under /verif/extract/<name>/.
 package main
 
 import (
@@ -19,17 +19,10 @@ func main() {
 	case "consts":
 		err = cmdConsts(os.Args[2], os.Args[3])
 	default:
-		if f, ok := commands[os.Args[1]]; ok {
-			err = f(os.Args[2:])
-		} else {
-			err = fmt.Errorf("unknown command %q", os.Args[1])
-		}
+		err = fmt.Errorf("unknown command %q", os.Args[1])
 	}
 	if err != nil {
 		fmt.Fprintln(os.Stderr, "verif-extract:", err)
 		os.Exit(1)
 	}
 }
-
-// commands is filled by init() functions of sibling files.
-var commands = map[string]func(args []string) error{}
